@@ -660,6 +660,25 @@ class Interp:
                     o.fields.pop(t.attr, None)
                 else:
                     raise Unsupported('del attribute')
+            elif isinstance(t, ast.Subscript):
+                o = self.eval(t.value, frame)
+                idx = self.eval(t.slice, frame)
+                from .values import concrete_int as _ci
+                if not isinstance(idx, (int, str)) and _ci(idx) is not None:
+                    idx = _ci(idx)
+                if isinstance(o, list) and not isinstance(idx, bool) and isinstance(idx, int):
+                    self.note_mutation(o)
+                    try:
+                        del o[idx]
+                    except IndexError:
+                        raise PyRaise(ExcVal('IndexError', ('list assignment index out of range',)))
+                elif isinstance(o, dict) and not isinstance(o, SDict) and isinstance(idx, (int, str)) and not isinstance(idx, bool):
+                    self.note_mutation(o)
+                    if idx not in o:
+                        raise PyRaise(ExcVal('KeyError', (idx,)))
+                    del o[idx]
+                else:
+                    raise Unsupported('del subscript %r[%r]' % (type(o).__name__, idx))
             else:
                 raise Unsupported('del subscript')
 
